@@ -233,9 +233,29 @@ def run(rec, tier, seed):
     rec.exhaustive.append(f"40 contexts x 7 literal kinds x payloads of length<={maxlen} (two-character strings: exactly 2) over the 28 syntax-significant characters")
     n = 1200 if quick else 40000
     campaign.parallel(rec, _shard_hyp, [(seed * 1000 + i, n) for i in range(ns)])
+    if not quick:
+        campaign.atheris_tier(rec, "C03", 30000, seed, procs=8, max_len=256)
 
 
 def replay(case):
     ast = case["ast"]
     progs.validate(ast)
     return check_ast(ast)
+
+
+def fuzz_targets():
+    found = []
+
+    def t(p):
+        r = check_ast(p)
+        if r:
+            found.append((r[0], {"ast": p}, r[1]))
+
+    fz = campaign.hyp_fuzz_target(t, {"p": progs.program_strategy(4, hot=True)})
+
+    def target(data):
+        del found[:]
+        fz(data)
+        return list(found)
+
+    return {"generated-ast": target}
